@@ -1092,7 +1092,23 @@ func (m *MapPollard) Verify(delHashes []Hash, proof Proof, remember bool) error 
 // This function is different from Verify() in that it's not safe for concurrent access.
 func (m *MapPollard) verify(delHashes []Hash, proof Proof, remember bool) error {
 	if TreeRows(m.NumLeaves) != m.TotalRows {
-		proof.Targets = translatePositions(proof.Targets, m.TotalRows, TreeRows(m.NumLeaves))
+		// translatePos keeps the row and the offset of a position but doesn't check that
+		// the offset fits into the row of the smaller forest. A target that's past the end
+		// of its row would end up on the next row so reject it here.
+		treeRows := TreeRows(m.NumLeaves)
+		for _, target := range proof.Targets {
+			if target <= maxPosition(treeRows) {
+				continue
+			}
+			row := DetectRow(target, m.TotalRows)
+			if row > treeRows ||
+				target-startPositionAtRow(row, m.TotalRows) >= uint64(1)<<(treeRows-row) {
+
+				return fmt.Errorf("Verify fail. Target %d doesn't exist in a forest of %d leaves",
+					target, m.NumLeaves)
+			}
+		}
+		proof.Targets = translatePositions(proof.Targets, m.TotalRows, treeRows)
 	}
 
 	s := m.getStump()
